@@ -6,9 +6,10 @@ A case is {"cfg": {...}, "ops": [...]}:
          mode ∈ default|script (optional, default "default"): with "script" the decorator gets a user `condition`
          (scripted_condition), failover/soft get a callable `ttl` (evaluated with the result), and the cache gets a
          middleware that can refuse a SET — the three ways the STORE STEP that follows a successful execution can fail
-  ops  = "call <arg> <outcome>"     one call of the decorated function with argument <arg> (a|b); the outcome is what
+  ops  = "call <arg> <outcome> [<dur>]"  one call of the decorated function with argument <arg> (a|b); the outcome is what
                                     the wrapped function (and the store step after it) does IF this call executes it in
-                                    the foreground
+                                    the foreground, and <dur> (ticks, default 0) is how long the function body then takes:
+                                    it sleeps <dur> ticks on the virtual loop before it returns / raises
          "adv <ticks>"              virtual time passes
          "done <arg> <i> <outcome>" the i-th oldest background refresh in flight for <arg> completes with that outcome
   outcome = ok | lis | unl          the function returns (and its result is stored) | raises a listed | an unlisted exception
@@ -18,9 +19,11 @@ A case is {"cfg": {...}, "ops": [...]}:
                                     without the result, hit cannot be given one) | backend.set is refused by the middleware —
                                     with a Listed (L) / Unlisted (U) exception
 
-The wrapped function returns (completion tick, execution ordinal for that argument): served age is read off the value.
+The wrapped function returns (completion tick, execution ordinal for that argument): served age is read off the value
+and judged at the instant the call RETURNS (`t_end` of the call event; `t` is the instant it began).
 A background refresh (a task other than the harness's own) parks on a future until its `done` op, so that
-"the refresh finishes after the next call(s)" is an ordinary history.  Foreground executions are instantaneous.
+"the refresh finishes after the next call(s)" is an ordinary history.  A foreground execution takes the scripted
+duration of its call: everything the decorator does before `await func(...)` happens at `t`, everything after at `t_end`.
 Different arguments use different cache keys: the model is run once per argument on the projection of the history.
 """
 from __future__ import annotations
@@ -153,7 +156,7 @@ class _Ctx:
         self.nexec = {a: 0 for a in ARGS}
         self.gates = {a: [] for a in ARGS}        # in flight: (id, future, start tick)
         self.execs = []                           # every execution: dict(arg,id,start,end,outcome,bg)
-        self.cur = {"outcome": "ok"}
+        self.cur = {"outcome": "ok", "dur": 0}
 
 
 _CTX: _Ctx | None = None
@@ -166,7 +169,7 @@ async def wrapped_function(arg):
     ctx = _CTX
     n = ctx.nexec[arg]
     ctx.nexec[arg] += 1
-    rec = {"arg": arg, "id": n, "start": CLOCK.ticks(), "end": None, "outcome": None, "bg": False}
+    rec = {"arg": arg, "id": n, "start": CLOCK.ticks(), "end": None, "outcome": None, "bg": False, "dur": 0}
     ctx.execs.append(rec)
     out = ctx.cur["outcome"]
     if asyncio.current_task() is not ctx.main_task and ctx.cfg["bg"] and ctx.cfg["decor"] in ("early", "hit"):
@@ -174,6 +177,12 @@ async def wrapped_function(arg):
         fut = ctx.loop.create_future()
         ctx.gates[arg].append((n, fut, rec["start"]))
         out = await fut
+    elif ctx.cur["dur"]:
+        # the body takes time: it sleeps on the virtual loop (timers that fall due meanwhile - the purge task - run)
+        rec["dur"] = ctx.cur["dur"]
+        await vtime.vsleep(rec["dur"])
+        if CLOCK.ticks() != rec["start"] + rec["dur"]:
+            raise HarnessError(f"a body of {rec['dur']} ticks started at {rec['start']} ended at {CLOCK.ticks()}")
     rec["end"] = CLOCK.ticks()
     rec["outcome"] = out
     if out == "ok":
@@ -219,8 +228,9 @@ async def _execute(cfg, ops):
         w = line.split()
         t = CLOCK.ticks()
         if w[0] == "call":
-            arg, o = w[1], w[2]
+            arg, o, dur = parse_call(line)
             cur["outcome"] = o
+            cur["dur"] = dur
             done_before = sum(1 for e in execs if e["end"] is not None)
             started_before = len(execs)
             infl_before = [(i, s) for i, _, s in gates[arg]]
@@ -243,8 +253,9 @@ async def _execute(cfg, ops):
             ran = [e for e in execs if e["end"] is not None][done_before:]
             await _quiesce()
             late = [e for e in execs if e["end"] is not None][done_before + len(ran):]
-            if CLOCK.ticks() != t:
-                raise HarnessError("virtual time moved during a call")
+            t_end = CLOCK.ticks()
+            if t_end != t + sum(e["dur"] for e in ran):
+                raise HarnessError(f"virtual time moved during a call by something else than its function body: {t} -> {t_end}")
             new = execs[started_before:]
             if res[0] == "val":
                 fresh = any(e["arg"] == arg and e["id"] == res[2] and e["end"] == res[1] for e in ran)
@@ -255,12 +266,13 @@ async def _execute(cfg, ops):
                 shown = "other:" + res[1]
             x = len(ran)
             b = sum(1 for e in new if e["bg"] and e["end"] is None)
-            events.append({"op": line, "kind": "call", "arg": arg, "t": t, "outcome": o, "res": shown, "x": x, "b": b,
+            events.append({"op": line, "kind": "call", "arg": arg, "t": t, "t_end": t_end, "dur": dur, "outcome": o,
+                           "res": shown, "x": x, "b": b,
                            "n": len(gates[arg]), "infl_before": infl_before,
                            "started_id": gates[arg][-1][0] if b else None,
-                           "ran": [(e["id"], e["end"], e["outcome"]) for e in ran if e["arg"] == arg],
-                           "late": [(e["id"], e["end"], e["outcome"]) for e in late if e["arg"] == arg],
-                           "impl": f"{shown} x={x} b={b} n={len(gates[arg])}"})
+                           "ran": [(e["id"], e["end"], e["outcome"], e["start"]) for e in ran if e["arg"] == arg],
+                           "late": [(e["id"], e["end"], e["outcome"], e["start"]) for e in late if e["arg"] == arg],
+                           "impl": f"{shown} x={x} b={b} n={len(gates[arg])} t={t_end}"})
         elif w[0] == "adv":
             CLOCK.advance(int(w[1]))
             await _quiesce()
@@ -275,10 +287,10 @@ async def _execute(cfg, ops):
                 await _quiesce()
                 shown = "stored" if o == "ok" else ("skipped" if o == "rej" else "failed")
                 events.append({"op": line, "kind": "done", "arg": arg, "t": t, "id": n, "start": start, "outcome": o,
-                               "res": shown, "n": len(gates[arg]), "impl": f"{shown} n={len(gates[arg])}"})
+                               "res": shown, "n": len(gates[arg]), "impl": f"{shown} n={len(gates[arg])} t={CLOCK.ticks()}"})
             else:
                 events.append({"op": line, "kind": "done", "arg": arg, "t": t, "id": None, "outcome": o, "res": "noop",
-                               "n": len(gates[arg]), "impl": f"noop n={len(gates[arg])}"})
+                               "n": len(gates[arg]), "impl": f"noop n={len(gates[arg])} t={CLOCK.ticks()}"})
         else:
             raise HarnessError(f"bad op {line!r}")
     # drain what is still in flight (not part of the history) so that the loop closes cleanly
@@ -291,14 +303,24 @@ async def _execute(cfg, ops):
     return events
 
 
+def parse_call(line):
+    """`call <arg> <outcome> [<dur>]` -> (arg, outcome, dur)"""
+    w = line.split()
+    if len(w) not in (3, 4) or w[0] != "call" or (len(w) == 4 and not w[3].isdigit()):
+        raise HarnessError(f"bad call op {line!r}")
+    return w[1], w[2], int(w[3]) if len(w) == 4 else 0
+
+
 def execute(cfg, ops):
     """run one case on the real code; returns the list of observed events (one per op)"""
     return vtime.run(_execute, cfg, ops)
 
 
 def project(ops, events, arg):
-    """the history as seen by one argument's cache key: its own calls / completions, and all time advances.
-    Returns (model lines, indexes into ops)"""
+    """the history as seen by one argument's cache key: its own calls / completions, and all time advances — also the
+    time that passed while ANOTHER argument's call was running its function body (observed: `t_end - t` of that call's
+    event; that call's own block checks the same elapsed time against the model).
+    Returns (model lines, indexes into ops; None for such a synthetic advance)"""
     lines, idx = [], []
     for i, line in enumerate(ops):
         w = line.split()
@@ -306,19 +328,29 @@ def project(ops, events, arg):
             lines.append(line)
             idx.append(i)
         elif w[1] == arg:
-            if w[-1] not in MODEL_OUTCOME:
+            if w[0] == "call":
+                _, o, dur = parse_call(line)
+                head, tail = ["call"], ([str(dur)] if dur else [])
+            else:
+                o, head, tail = w[-1], [w[0]] + w[2:-1], []
+            if o not in MODEL_OUTCOME:
                 raise HarnessError(f"bad outcome in {line!r}")
-            lines.append(" ".join([w[0]] + w[2:-1] + [MODEL_OUTCOME[w[-1]]]))
+            lines.append(" ".join(head + [MODEL_OUTCOME[o]] + tail))
             idx.append(i)
+        elif w[0] == "call" and events is not None:
+            elapsed = events[i]["t_end"] - events[i]["t"]
+            if elapsed:
+                lines.append(f"adv {elapsed}")
+                idx.append(None)
     return lines, idx
 
 
-def model_block(cfg, ops):
+def model_block(cfg, ops, events=None):
     """driver request lines for a whole case: one block per argument that occurs"""
     blocks = []
     for arg in ARGS:
         if any(l.split()[0] != "adv" and l.split()[1] == arg for l in ops):
-            lines, idx = project(ops, None, arg)
+            lines, idx = project(ops, events, arg)
             blocks.append((arg, [case_line(cfg)] + lines, idx))
     return blocks
 
@@ -343,6 +375,10 @@ def model_view(ev, ans: str) -> str:
 # ------------------------------------------------------------------------------------------------------------------
 
 D19 = "D19-foreground-refresh-failure-propagates"
+# D39 / D40 (found when the check learnt executions with a duration; repaired in /repo): soft fell back to the `cached` it
+# had read BEFORE the function ran, early(background=False) returned the result it had read before the foreground refresh
+# it awaited - after a slow execution a value stored more than ttl ago.  Their witnesses are corpus cases
+# (corpus/C14/D39_*.json, D40_*.json) and the ordinary signatures below report them if they ever return.
 
 
 def oracle(cfg, events):
@@ -357,6 +393,7 @@ def oracle(cfg, events):
     run2 = {}            # arg -> same, a completed-and-stored background refresh also resets
     since = {}           # arg -> calls since the last store (hit)
     sequential = {}      # arg -> no call was made while a refresh was in flight (hit)
+    lstart = {}          # arg -> instant at which the execution that produced `last` STARTED
     started = {}         # (arg, execution id) -> index of the call that started that background refresh
     prev_rej = {}        # arg -> the previous call for this argument returned a result the condition turned down
     reset_kept = {}      # arg -> hit: a refused SET deleted the counter while an older result stayed stored
@@ -382,6 +419,7 @@ def oracle(cfg, events):
                     reset_kept[arg] = True
             if ev["res"] == "stored":
                 last[arg] = (t, ev["id"])
+                lstart[arg] = ev["start"]
                 since[arg] = 0
                 run2[arg] = 0
                 reset_kept[arg] = False
@@ -396,12 +434,25 @@ def oracle(cfg, events):
             continue
         # ---- a call
         res, x, b, o = ev["res"], ev["x"], ev["b"], ev["outcome"]
+        te, dur = ev["t_end"], ev["dur"]          # the instant the call returned; the scripted duration of its function body
         if b:
             started[(arg, ev["started_id"])] = i
         kind = res.split(":")[0]
         val = tuple(int(z) for z in res.split(":")[1:]) if kind in ("fresh", "stored") else None
         L = last.get(arg)
-        age = t - L[0] if L else None
+        age = t - L[0] if L else None             # age of the stored result when the call BEGAN
+        age_end = te - L[0] if L else None        # ... and when it returned
+        if te != t + (dur if x == 1 else 0):
+            bad(i, "call-duration", f"the call began at {t} and returned at {te}: executed {x}, function body of {dur} ticks")
+        if x == 1 and dur:
+            seen.add("execution_took_time")
+            if L and age < ttl <= age_end:
+                seen.add("execution_straddles_ttl_of_stored_result")
+            if L and inner and age < ttl and dur >= inner:
+                seen.add("execution_longer_than_inner_ttl")
+        if L and x == 0 and kind == "stored" and inner and age <= inner - (1 if d == "soft" else 0) < t - lstart.get(arg, L[0]):
+            # young only because the inner deadline counts from the COMPLETION of the execution that produced the result
+            seen.add("young_only_by_completion_stamp")
         if kind == "other":
             bad(i, "unexpected-result", f"call returned/raised something outside the alphabet: {res}")
         # ---- the store step after a successful execution (all four strategies)
@@ -427,18 +478,27 @@ def oracle(cfg, events):
         if prev_rej.get(arg) and x == 1:
             seen.add("call_after_rejected_result_executes")
         prev_rej[arg] = own and o == "rej"
-        if kind == "fresh" and (x != 1 or val[0] != t):
+        if kind == "fresh" and (x != 1 or val[0] != te):
             bad(i, "fresh-not-fresh", f"a result reported as fresh was not produced by this call: {res}")
         if kind == "stored" and val != L:
             bad(i, "served-not-latest", f"served {val}, but the latest stored result is {L}")
 
         if d == "early":
-            if val is not None and not (0 <= t - val[0] <= ttl):
-                bad(i, "early-older-than-ttl", f"call at {t} received a result stored at {val[0]} (> ttl={ttl} ago)")
+            if val is not None and not (0 <= te - val[0] <= ttl):
+                why = (f" — it was younger than ttl when the call began at {t}, but the call waited {dur} for its foreground refresh "
+                       "and then handed out what it had read before it") if kind == "stored" and x == 1 and t - val[0] < ttl else ""
+                bad(i, "early-older-than-ttl", f"call returning at {te} received a result stored at {val[0]} (> ttl={ttl} ago){why}")
             if L and age < inner and age < ttl and not (res == f"stored:{L[0]}:{L[1]}" and x == 0 and b == 0):
                 bad(i, "early-young-not-served", f"stored result aged {age} < early_ttl={inner} but the call gave {res} x={x} b={b}")
             if L and age < ttl and res != f"stored:{L[0]}:{L[1]}":
-                if (not bg) and kind in ("raised", "storeerr") and x == 1 and age >= inner:
+                if (not bg) and kind == "fresh" and x == 1 and age >= inner:
+                    # the caller waited for the foreground refresh it triggered and gets the refreshed result
+                    seen.add("foreground_refresh_ok")
+                    if dur >= max(inner, 1):
+                        seen.add("foreground_refresh_outlived_its_lock")
+                    if age_end >= ttl:
+                        seen.add("foreground_refresh_straddles_ttl_fresh_result_served")
+                elif (not bg) and kind in ("raised", "storeerr") and x == 1 and age >= inner:
                     bad(i, D19, f"background=False: the refresh raised and the call raised too instead of answering "
                                f"from the store (stored result aged {age}, early_ttl={inner}, ttl={ttl})")
                     seen.add("foreground_refresh_failed")
@@ -462,19 +522,20 @@ def oracle(cfg, events):
                 seen.add("served_while_refresh_in_flight")
             if ev["n"] > 1:
                 seen.add("two_refreshes_in_flight_untimely")
-            if (not bg) and x == 1 and kind == "stored":
-                seen.add("foreground_refresh_ok")
         elif d == "soft":
             if L and age > inner and x != 1:
                 bad(i, "soft-old-not-recomputed", f"stored result aged {age} > soft_ttl={inner} but the call did not execute")
             if kind == "stored":
-                a = t - val[0]
+                a = te - val[0]                    # judged when it is handed out
                 if x == 0 and a > inner:
                     bad(i, "soft-stale-without-recompute", f"served a result aged {a} > soft_ttl={inner} without executing")
                 if x == 1 and not (o == "lis" and a < ttl):
                     why = (" — the function RETURNED; what failed (or was decided) afterwards is the store step, whose "
                            "error must surface instead of the stale value") if o in RETURNS else ""
-                    bad(i, "soft-stale-wrongly-served", f"served the stored result aged {a} after an execution with outcome {o} (ttl={ttl}){why}")
+                    if o == "lis" and 0 <= t - val[0] < ttl:
+                        why = (f" — it was younger than ttl when the call began at {t}, but the recomputation ran for {dur} and failed at "
+                               f"{te}: the fallback must be judged at the moment of the failure")
+                    bad(i, "soft-stale-wrongly-served", f"served the stored result aged {a} (at the instant {te} it was handed out) after an execution with outcome {o} (ttl={ttl}){why}")
                 if x == 1:
                     seen.add("stale_served_on_listed")
             if L and age == inner:
@@ -483,23 +544,34 @@ def oracle(cfg, events):
                 seen.add("call_exactly_at_ttl")
             if L and age >= ttl and o == "lis":
                 seen.add("listed_failure_after_hard_expiry")
+            if L and x == 1 and o == "lis" and age < ttl <= age_end:
+                seen.add("listed_failure_after_result_expired_during_execution")
+            if kind == "stored" and x == 1 and dur:
+                seen.add("stale_served_on_slow_listed_failure")
             if L and inner <= age < ttl and o == "unl":
                 seen.add("unlisted_failure_with_stale_value")
         elif d == "fail":
             if x != 1:
                 bad(i, "failover-not-executed", f"the call executed the function {x} times")
             if kind == "stored":
-                a = t - val[0]
+                a = te - val[0]                    # judged when it is handed out: when the function has failed
                 if not (o == "lis" and a < ttl):
                     why = (" — the function RETURNED without raising; what raised is the store step after it (condition / "
                            "callable ttl / backend.set), whose error must surface instead of the older value") if o in RETURNS else ""
+                    if o == "lis" and t - val[0] < ttl:
+                        why = (f" — it was younger than ttl when the call began at {t}, but the function ran for {dur} and failed at "
+                               f"{te}: the fallback must be judged at the moment of the failure")
                     bad(i, "failover-stored-wrongly-served", f"returned the stored result aged {a} although outcome={o}, ttl={ttl}{why}")
                 seen.add("stored_served_on_listed")
-            if L and age == ttl and o == "lis":
+                if dur:
+                    seen.add("stored_served_on_slow_listed_failure")
+            if L and o == "lis" and age < ttl <= age_end:
+                seen.add("listed_failure_after_result_expired_during_execution")
+            if L and age_end == ttl and o == "lis":
                 seen.add("listed_failure_exactly_at_ttl")
-            if L and age > ttl and o == "lis":
+            if L and age_end > ttl and o == "lis":
                 seen.add("listed_failure_after_expiry")
-            if L and age < ttl and o == "unl":
+            if L and age_end < ttl and o == "unl":
                 seen.add("unlisted_failure_with_stored")
         elif d == "hit":
             k = since.get(arg, 0) + 1
@@ -543,15 +615,20 @@ def oracle(cfg, events):
                 seen.add("refresh_at_update_after")
             if due and not bg and o != "ok":
                 seen.add("foreground_refresh_failed_propagates")
+            if due and not bg and dur:
+                seen.add("slow_foreground_refresh")
+            if x == 1 and dur and L and age < ttl <= age_end:
+                seen.add("result_and_counter_expired_during_execution")
             if L and not live and k <= hits:
                 seen.add("stored_result_expired_before_hits_used_up")
             if ev["infl_before"]:
                 seen.add("call_while_refresh_in_flight")
             if live and k > hits + 1:
                 seen.add("counter_kept_growing_after_failed_execution")
-        for rid, rend, rout in ev["ran"] + ev["late"]:
+        for rid, rend, rout, rstart in ev["ran"] + ev["late"]:
             if rout == "ok":
                 last[arg] = (rend, rid)
+                lstart[arg] = rstart
     return problems, seen
 
 
@@ -604,9 +681,23 @@ def gaps(cfg):
     return sorted(x for x in g if x >= 0)
 
 
+def durations(cfg, now, mark):
+    """durations for a function body started at `now` when the latest store was (possibly) made at `mark`: short ones, the
+    lifetime of the early lock / the inner ttl, and those that make the execution END just below / exactly at / just beyond
+    the inner and the hard TTL of the stored result"""
+    ttl, inner = cfg["ttl"], cfg["inner"]
+    ds = {1, 2, 3}
+    for B in ((inner, ttl) if inner else (ttl,)):
+        ds |= {B - 1, B, B + 1}
+        for e in (-1, 0, 1):
+            ds.add(mark + B + e - now)
+    return sorted(x for x in ds if 0 < x <= 2 * ttl)
+
+
 def gen_ops(rng, cfg, maxlen=14):
     """calls with gaps aimed at the boundaries: the generator keeps the instant of the latest operation that may have
-    stored a result and aims the next call at an age from `gaps` (or just lets a gap pass)"""
+    stored a result and aims the next call at an age from `gaps` (or just lets a gap pass); about a third of the calls
+    carry a duration for their function body, aimed so that the execution straddles a boundary (`durations`)"""
     n = rng.randint(1, maxlen)
     nargs = 1 if rng.random() < 0.75 else 2
     G = gaps(cfg)
@@ -639,9 +730,12 @@ def gen_ops(rng, cfg, maxlen=14):
                 infl[arg] = max(0, infl[arg] - 1)
         else:
             o = rng.choice(OUT)
-            ops.append(f"call {arg} {o}")
-            if o == "ok" and rng.random() < 0.6:
-                mark[arg] = now
+            dur = rng.choice(durations(cfg, now, mark[arg])) if rng.random() < 0.35 else 0
+            ops.append(f"call {arg} {o} {dur}" if dur else f"call {arg} {o}")
+            if rng.random() < 0.6:
+                now += dur          # the body ran (a guess: whether it does is the decorator's decision)
+                if o == "ok":
+                    mark[arg] = now
             if cfg["bg"]:
                 infl[arg] += 1 if rng.random() < 0.5 else 0
     return ops
@@ -682,6 +776,28 @@ ENUM_SCRIPT = [
      ["call a ok", "call a lis", "call a sL", "call a cU", "call a rej", "adv 16"]),
     ({"decor": "hit", "ttl": 16, "inner": 0, "hits": 2, "upd": 1, "bg": 1, "store": "plain", "mode": "script"},
      ["call a ok", "call a sU", "call a rej", "done a 0 ok", "done a 0 sL", "done a 0 cL", "done a 0 rej"]),
+]
+
+
+# executions that take time: calls whose function body lasts 2 ticks (ttl 2 s, inner ½ s), with gaps that put the start of
+# the call just below a boundary so that the execution ends exactly at / just beyond it (3+... = inner, 14/15+... = ttl)
+ENUM_DUR = [
+    ({"decor": "fail", "ttl": 16, "inner": 0, "hits": 0, "upd": 0, "bg": 0, "store": "plain"},
+     ["call a ok", "call a ok 2", "call a lis", "call a lis 2", "call a lis 1", "adv 14", "adv 1"]),
+    ({"decor": "soft", "ttl": 16, "inner": 4, "hits": 0, "upd": 0, "bg": 0, "store": "plain"},
+     ["call a ok", "call a ok 2", "call a lis", "call a lis 2", "call a unl 2", "adv 3", "adv 11", "adv 1"]),
+    ({"decor": "early", "ttl": 16, "inner": 4, "hits": 0, "upd": 0, "bg": 0, "store": "plain"},
+     ["call a ok", "call a ok 2", "call a lis 2", "call a ok 5", "adv 3", "adv 11", "adv 1"]),
+    ({"decor": "early", "ttl": 16, "inner": 4, "hits": 0, "upd": 0, "bg": 1, "store": "plain"},
+     ["call a ok 2", "call a lis 2", "call a ok", "adv 3", "adv 11", "adv 1", "done a 0 ok"]),
+    ({"decor": "hit", "ttl": 16, "inner": 0, "hits": 2, "upd": 1, "bg": 0, "store": "plain"},
+     ["call a ok", "call a ok 2", "call a lis 2", "adv 14", "adv 1"]),
+    ({"decor": "hit", "ttl": 16, "inner": 0, "hits": 1, "upd": 0, "bg": 1, "store": "plain"},
+     ["call a ok 2", "call a lis 2", "call a lis", "adv 14", "adv 1"]),
+    ({"decor": "soft", "ttl": 16, "inner": 4, "hits": 0, "upd": 0, "bg": 0, "store": "plain", "mode": "script"},
+     ["call a ok 2", "call a lis 2", "call a sL 2", "call a rej 2", "call a tU 2", "adv 3", "adv 11"]),
+    ({"decor": "fail", "ttl": 16, "inner": 0, "hits": 0, "upd": 0, "bg": 0, "store": "plain", "mode": "script"},
+     ["call a ok 2", "call a lis 2", "call a cL 2", "call a rej 2", "call a sU 2", "adv 14", "adv 1"]),
 ]
 
 
